@@ -267,6 +267,35 @@ func (en *evalEnv) lookupIdent(name string) (ev, bool) {
 		}
 		return ev{e.val(en.fr, v), v.Type()}, true
 	}
+	if en.point != nil && !strings.HasPrefix(name, "$") {
+		// several SSA values carry this name (the binding of a type switch has one per case) and no
+		// reference lies on the dominator path of the program point: of the values that are defined in a
+		// block dominating the point, the one defined last (deepest in the dominator tree) is the binding
+		// in force there
+		var best ssa.Value
+		var bestB *ssa.BasicBlock
+		for _, bb := range en.point.Parent().Blocks {
+			for _, in := range bb.Instrs {
+				dr, ok := in.(*ssa.DebugRef)
+				if !ok || dr.IsAddr || isFieldRef(dr) {
+					continue
+				}
+				if id, ok := dr.Expr.(*ast.Ident); !ok || id.Name != name {
+					continue
+				}
+				def, ok := dr.X.(ssa.Instruction)
+				if !ok || def.Block() == nil || !def.Block().Dominates(en.point.Block()) || !en.hasValue(dr.X) {
+					continue
+				}
+				if best == nil || (bestB != def.Block() && bestB.Dominates(def.Block())) {
+					best, bestB = dr.X, def.Block()
+				}
+			}
+		}
+		if best != nil {
+			return ev{e.val(en.fr, best), best.Type()}, true
+		}
+	}
 	// package-level variable or constant
 	if en.fn.Pkg != nil {
 		if m, ok := en.fn.Pkg.Members[name]; ok {
@@ -1136,6 +1165,15 @@ func (e *Exec) contractLoopInvs(fr *Frame, h *ssa.BasicBlock, li *loopInfo, phis
 				en.prevPhis = before
 				en.point = point
 				// other names: the value in use at the end of the iteration (the instruction that jumps back)
+				return e.evalClause(en, cl)
+			}})
+		}
+		for i, cl := range c.Exits[key] {
+			cl := cl
+			li.exits = append(li.exits, &loopStep{name: clauseName(cl, i), eval: func(now, before map[*ssa.Phi]Value, st *State, point ssa.Instruction) *Term {
+				en := e.newEnv(fr, st, e.entry)
+				en.phis = now
+				en.point = point
 				return e.evalClause(en, cl)
 			}})
 		}
